@@ -708,10 +708,12 @@ func (req *Request) BodyE() ([]byte, error) {
 		bodyBuf.Reset()
 		zw := network.NewWriter(bodyBuf)
 		_, err := utils.CopyZeroAlloc(zw, req.bodyStream)
-		req.CloseBodyStream() //nolint:errcheck
 		if err != nil {
+			// The stream is kept: the unread rest of the body is still on the connection, and the server
+			// has to skip it (or give the connection up) when it releases the stream.
 			return nil, err
 		}
+		req.CloseBodyStream() //nolint:errcheck
 		return req.BodyBytes(), nil
 	}
 	if req.OnlyMultipartForm() {
@@ -736,7 +738,9 @@ func (req *Request) BodyWriteTo(w io.Writer) error {
 	if req.IsBodyStream() {
 		zw := network.NewWriter(w)
 		_, err := utils.CopyZeroAlloc(zw, req.bodyStream)
-		req.CloseBodyStream() //nolint:errcheck
+		if err == nil { // (on error the stream is kept, see BodyE)
+			req.CloseBodyStream() //nolint:errcheck
+		}
 		return err
 	}
 	if req.OnlyMultipartForm() {
